@@ -333,6 +333,12 @@ class Index:
                             continue
             if all(unify(p, a, env) for p, a in zip(d.param_tys, actual)):
                 cands.append((d, env))
+        if len(cands) > 1 and not f.startswith('<') and prefix:
+            # several free functions of the same name in different modules: the call path's module decides
+            modseg = last_seg(prefix)[-1]
+            narrowed = [c for c in cands if c[0].kind != 'impl' and strip_lifetimes(c[0].name).split('::')[-2:-1] == [modseg]]
+            if narrowed:
+                cands = narrowed
         return cands
 
 
